@@ -10,6 +10,7 @@ import Enc.Driver.JsonRaw
 import Enc.Driver.JsonMapKeys
 import Enc.Driver.JsonOmit
 import Enc.Driver.JsonInlined
+import Enc.Driver.JsonEncTyped
 /-!
 encdriver: reads `op<TAB>arg…` lines on stdin, answers `M<TAB>S<TAB>K` per line
 (model observable, spec observable, comma-separated Known classes), `bad-op` for what it cannot parse.
@@ -25,6 +26,7 @@ def dispatch (op : String) (args : List String) : Option (String × String × St
   else if op.startsWith "thrift." then Driver.Thrift.handle op args
   else if op.startsWith "conc." then Driver.Conc.handle op args
   else if op == "json.mapkeyorder" || op == "json.mapkeydec" then Driver.JsonMapKeys.handle op args
+  else if op == "json.enctyped" || op == "json.rttyped" then Driver.JsonEncTyped.handle op args
   else if op == "json.inlined" then Driver.JsonInlined.handle op args
   else if op == "json.omitempty" then Driver.JsonOmit.handle op args
   else if op == "json.rawemit" then Driver.JsonRaw.handle op args
